@@ -668,7 +668,7 @@ def documented_valid(chk, P):
     for lab in doc_interp:
         Jt = F.make_interp(P)
         tb = Jt.instantiate(tbcls, [], {}, None)
-        o = outcome(lambda: W.run_method(Jt, tb, "create_potential_form", [Jt.call(tt_, [Const("t"), Const(lab), W.param("x"), W.param("y")], {})]))
+        o = outcome(lambda: W.run_method(Jt, tb, "create_potential_form", [Jt.call(tt_, [Const("t"), Const(lab)] + list(_table_data()), {})]))
         if o[0] != "ok":
             refused[lab] = classify(P, o)
     chk.ob("C16.E10", "every documented interpolation type %s is accepted by the table-form builder" % doc_interp, bool(doc_interp) and not refused,
@@ -805,7 +805,7 @@ def unknown_names(chk, P):
     I = F.make_interp(P)
     tb = I.instantiate(P.cls("atsim.potentials.config._table_form_builder", "Table_Form_Builder"), [], {}, None)
     tt = I.module_global(P.module(COMMON), "TableFormTuple")
-    tup = I.call(tt, [Const("t"), Const("nope"), W.param("x"), W.param("y")], {})
+    tup = I.call(tt, [Const("t"), Const("nope")] + list(_table_data()), {})
     o = outcome(lambda: W.run_method(I, tb, "create_potential_form", [tup]))
     chk.ob("C16.E12", "unknown interpolation type -> configuration error", classify(P, o) == "config-error",
            site=P.cls("atsim.potentials.config._table_form_builder", "Table_Form_Builder").site_of("create_potential_form"),
@@ -813,14 +813,23 @@ def unknown_names(chk, P):
     # data the interpolation cannot use
     I = F.make_interp(P)
     tb = I.instantiate(P.cls("atsim.potentials.config._table_form_builder", "Table_Form_Builder"), [], {}, None)
-    I.hooks["atsim.potentials.tableforms:Cubic_Spline_Table_Form.__init__"] = \
-        lambda i, fv, a, k, n: (_ for _ in ()).throw(RaiseSignal(ExcV(ExtV("builtins.ValueError"), [Const("m must be > k")]), n))
-    tup = I.call(tt, [Const("t"), Const("cubic_spline"), W.param("x"), W.param("y")], {})
-    o = outcome(lambda: W.run_method(I, tb, "create_potential_form", [tup]))
-    chk.ob("C16.E12", "ValueError from the interpolation's constructor (too few / unsorted points) -> configuration error",
-           classify(P, o) == "config-error",
-           site=P.cls("atsim.potentials.config._table_form_builder", "Table_Form_Builder").site_of("create_potential_form"),
-           found=classify(P, o), expect="config-error", key="C16.E12|table-data")
+    for lab, tfc in F.tableform_classes(P):
+        I = F.make_interp(P)
+        tb = I.instantiate(P.cls("atsim.potentials.config._table_form_builder", "Table_Form_Builder"), [], {}, None)
+        I.hooks["%s:%s.__init__" % (tfc.module.name, tfc.name)] = \
+            lambda i, fv, a, k, n: (_ for _ in ()).throw(RaiseSignal(ExcV(ExtV("builtins.ValueError"), [Const("m must be > k")]), n))
+        xd, yd = _table_data()
+        tup = I.call(tt, [Const("t"), Const(lab), xd, yd], {})
+        o = outcome(lambda: W.run_method(I, tb, "create_potential_form", [tup]))
+        chk.ob("C16.E12", "ValueError from the constructor of the %r interpolation (data it cannot use) -> configuration error" % lab,
+               classify(P, o) == "config-error",
+               site=P.cls("atsim.potentials.config._table_form_builder", "Table_Form_Builder").site_of("create_potential_form"),
+               found=classify(P, o), expect="config-error", key="C16.E12|table-data" + ("" if lab == "cubic_spline" else "|" + lab))
+
+
+def _table_data(n=6):
+    """data of a table form as the parser delivers it: n increasing x values, symbolic y values"""
+    return (ListV([Num(ep.const(i + 1)) for i in range(n)], "list"), ListV([Num(ep.sym("y%d" % i)) for i in range(n)], "list"))
 
 
 def table_form_arity(chk, P):
@@ -828,7 +837,7 @@ def table_form_arity(chk, P):
     I = F.make_interp(P)
     tb = I.instantiate(P.cls("atsim.potentials.config._table_form_builder", "Table_Form_Builder"), [], {}, None)
     tt = I.module_global(P.module(COMMON), "TableFormTuple")
-    tup = I.call(tt, [Const("t"), Const("cubic_spline"), W.param("x"), W.param("y")], {})
+    tup = I.call(tt, [Const("t"), Const("cubic_spline")] + list(_table_data()), {})
     pf = W.run_method(I, tb, "create_potential_form", [tup])
     site = P.cls("atsim.potentials.config._potential_form", "Existing_Potential_Form").site_of("__call__")
     o = outcome(lambda: I.call(pf, [], {}))
